@@ -12,6 +12,7 @@
 #include <ascon/kmac.h>
 #include <ascon/kdf.h>
 #include <ascon/hkdf.h>
+#include <ascon/pbkdf2.h>
 
 using namespace asim;
 
@@ -401,7 +402,7 @@ struct StreamWorld : World {
             unsigned c = (unsigned)r.below(100);
             if (c < 40 && has_absorb(o.kind) && o.phase == 0) {
                 size_t n = pick_len(r, rate, true);
-                pl.add("absorb", {slot, (int64_t)n, (int64_t)r.below(3) == 0});
+                pl.add("absorb", {slot, (int64_t)n, (int64_t)((r.below(3) == 0 ? 1 : 0) | (r.chance(1, 2) ? 2 : 0))}); // bit 0 in place, bit 1 null pointer for an empty chunk
                 o.absorbed += n;
             } else if (c < 75 && !is_aead(o.kind)) {
                 size_t n = (o.kind == HKDF || o.kind == HKDFA) && hkdf_long ? (r.chance(1, 2) ? 1000 + r.below(3000) : pick_len(r, 32, true))
@@ -420,6 +421,11 @@ struct StreamWorld : World {
                 gen_init(r, pl, slot, "reinit", r.chance(3, 4) ? o.kind : -1);
                 o.kind = (int)pl.ops.back().a[1];
                 o.phase = 0; o.absorbed = o.squeezed = 0;
+            } else if (c < 93 && is_aead(o.kind) && r.chance(1, 6)) {
+                // the packet is abandoned where it is and the next one started on the same session (no end, no reinit)
+                unsigned rt = kind_rate(o.kind);
+                pl.add("next", {slot, (int64_t)r.below(3), (int64_t)pick_len(r, rt, false), (int64_t)(pick_len(r, rt, false) + pick_len(r, rt, false)), (int64_t)(r.next() >> 1)});
+                o.phase = 0;
             } else if (c < 93) {
                 pl.add("end", {slot});
                 if (is_aead(o.kind) && r.chance(2, 3)) {
@@ -432,8 +438,12 @@ struct StreamWorld : World {
                     o.live = false;
                 }
             } else if (c < 95) {
-                if (r.chance(1, 2)) pl.add("perm", {slot, (int64_t)r.below(12), (int64_t)(r.next() >> 1)});
-                else pl.add("sapi", {slot, (int64_t)(1 + r.below(10)), (int64_t)(r.next() >> 1)});
+                switch (r.below(3)) {
+                case 0: pl.add("perm", {slot, (int64_t)r.below(12), (int64_t)(r.next() >> 1)}); break;
+                case 1: pl.add("sapi", {slot, (int64_t)(1 + r.below(10)), (int64_t)(r.next() >> 1)}); break;
+                default: pl.add("oneshot", {slot, (int64_t)r.below(5), (int64_t)r.pickv({0, 1, 7, 8, 15, 16, 17, 31, 32, 33, 40, 64, 65, 100}), (int64_t)r.pickv({0, 1, 8, 15, 16, 17, 32, 40}),
+                                            (int64_t)r.pickv({0, 1, 8, 16, 33}), (int64_t)r.below(4), (int64_t)(r.next() >> 1)}); break;
+                }
             } else {
                 pl.add("free", {slot}); // mid-stream free
                 o.live = false;
@@ -667,7 +677,8 @@ struct StreamWorld : World {
     {
         int slot = (int)(op.u(0) % NSLOTS);
         Obj &o = c.obj[slot];
-        if (!o.live || !is_aead(o.p.kind) || o.phase != 2) return;
+        if (!o.live || !is_aead(o.p.kind)) return;
+        if (o.phase != 2 && c.record) c.run->fault("obj.packet_abandoned");
         AnyState *st = &c.slots[slot];
         o.p.variant = (int)(op.u(1) % 3);
         o.p.n1 = (size_t)(op.u(2) % 300);
@@ -711,6 +722,65 @@ struct StreamWorld : World {
         ascon_free(st);
         if (c.record) c.run->fold(o, 40);
         if (c.residue) c.residue->push_back(Residue{c.run->cur_op, -1, NKINDS, Bytes(mem, mem + sizeof(ascon_state_t))});
+    }
+
+    // Single-call functions that have no incremental counterpart in this world (ASCON-PrfShort, ASCON-Mac and its
+    // verification, the two PBKDF2 variants): exact-size buffers, guard pages in page mode, empty inputs as null or
+    // non-null pointers.  Their outputs enter the history digest (C09); memory safety is C12's.  What they compute is a
+    // pure function of the inputs and is not judged here.
+    static void do_oneshot(Ctx &c, const Op &op)
+    {
+        int kind = (int)(op.u(1) % 5);
+        size_t outlen = (size_t)(op.u(2) % 200), inlen = (size_t)(op.u(3) % 100), saltlen = (size_t)(op.u(4) % 100);
+        unsigned long count = (unsigned long)(op.u(5) % 4);
+        uint64_t sd = op.u(6);
+        bool nulls = sd & 1;
+        GuardBuf key(16, (unsigned)(sd >> 3), c.page), in(inlen, (unsigned)(sd >> 7), c.page), salt(saltlen, (unsigned)(sd >> 11), c.page);
+        fill_bytes(key.p, 16, sd ^ 1 ^ c.salt);
+        fill_bytes(in.p, inlen, sd ^ 2 ^ c.salt);
+        fill_bytes(salt.p, saltlen, sd ^ 3);
+        const uint8_t *ip = inlen || !nulls ? in.p : nullptr, *sp = saltlen || !nulls ? salt.p : nullptr;
+        const char *site = "";
+        int status = 0;
+        Bytes result;
+        switch (kind) {
+        case 0: { // ASCON-PrfShort: lengths above 16 are documented to be refused with -1
+            site = "ascon_prf_short";
+            size_t ol = outlen % 20, il = inlen % 20;
+            GuardBuf o(ol, (unsigned)(sd >> 15), c.page);
+            GuardBuf i2(il, (unsigned)(sd >> 19), c.page);
+            fill_bytes(i2.p, il, sd ^ 4 ^ c.salt);
+            status = ascon_prf_short(o.p, ol, il || !nulls ? i2.p : nullptr, il, key.p);
+            if (c.record && (!o.intact() || !i2.intact())) c.run->violation("C12", "canary", site, fmt("outlen=%zu inlen=%zu", ol, il));
+            if (status == 0) result = o.copy();
+            break; }
+        case 1: case 2: {
+            site = kind == 1 ? "ascon_mac" : "ascon_mac_verify";
+            GuardBuf t(16, (unsigned)(sd >> 15), c.page);
+            ascon_mac(t.p, ip, inlen, key.p);
+            if (c.record && !t.intact()) c.run->violation("C12", "canary", "ascon_mac", fmt("inlen=%zu", inlen));
+            result = t.copy();
+            if (kind == 2) {
+                if (sd & 2) t.p[(sd >> 23) % 16] ^= (uint8_t)(1u << ((sd >> 27) % 8));
+                status = ascon_mac_verify(t.p, ip, inlen, key.p);
+                if (c.record && !t.intact()) c.run->violation("C12", "canary", site, fmt("inlen=%zu", inlen));
+            }
+            break; }
+        default: {
+            site = kind == 3 ? "ascon_pbkdf2" : "ascon_pbkdf2_hmac";
+            GuardBuf o(outlen, (unsigned)(sd >> 15), c.page);
+            if (kind == 3) ascon_pbkdf2(o.p, outlen, ip, inlen, sp, saltlen, count);
+            else ascon_pbkdf2_hmac(o.p, outlen, ip, inlen, sp, saltlen, count);
+            if (c.record && !o.intact()) c.run->violation("C12", "canary", site, fmt("outlen=%zu passwordlen=%zu saltlen=%zu count=%lu", outlen, inlen, saltlen, count));
+            result = o.copy();
+            break; }
+        }
+        if (c.record) {
+            if (!key.intact() || !in.intact() || !salt.intact()) c.run->violation("C12", "stray_write", site, "an input buffer or the bytes around it were modified");
+            c.run->fold_bytes(result);
+            c.run->fold_u64((uint64_t)(int64_t)status);
+            c.run->state(fmt("oneshot/%d/%s/%s/%d", kind, outlen == 0 ? "0" : outlen % 32 == 0 ? "k" : "p", inlen == 0 ? (nulls ? "null" : "0") : "n", status != 0));
+        }
     }
 
     // The byte-access interface of the permutation state, as a caller may use it: every (offset, size) with
@@ -807,6 +877,7 @@ struct StreamWorld : World {
             else if (op.name == "free") do_free(c, (int)(op.u(0) % NSLOTS), true);
             else if (op.name == "perm") do_perm(c, op);
             else if (op.name == "sapi") do_sapi(c, op);
+            else if (op.name == "oneshot") do_oneshot(c, op);
             else if (op.name == "next") do_next(c, op);
         }
         for (int s = 0; s < NSLOTS; ++s) do_free(c, s, false);
